@@ -107,6 +107,12 @@ CHECKS['C13'] = dict(
          '(d) Every MPilot error class is built with representative fields and a symbolic line number and pushed through the real CLI handler: str() must not raise, exit status non-zero, message on stderr, the marked line is the error line (z3).',
     note='Trusted: z3; S-repr contract (which escapes CPython rejects) only steers where witnesses are sought; everything is executed on the real code.',
     ref='DESIGN.md §3 C13')
+CHECKS['C16'] = dict(
+    technique='table queries against the live libraries; symbolic execution of the real convert_eems2_commands on nodes with z3-string names (lookup by symbolic key forks over the table keys); structural comparison of v2 and v3 renderings through the real from_source',
+    text='(a) every row of the live EEMS_COMMANDS table must name a command that exists in both library sets; (b) the real node rewriting runs on a node whose result name (or absence), command name, argument names, values and line numbers are symbolic: z3 proves the result-name rule (given name, else NewFieldName, else InFieldName), '
+         'renaming per table else unchanged, and that exactly NewFieldName/OutFileName are dropped with order and lines kept; (c) for every mapped name the EEMS 2.0 rendering (with/without NewFieldName/OutFileName, pure or mixed with MPilot-style commands) and its MPilot translation are loaded by the real from_source and compared structurally; (d) version detection across parse sequences.',
+    note='Trusted: z3 strings; EEMS_COMMANDS wrapped for symbolic keys; results of the two programs are equal because the programs are structurally identical (evaluation itself is C02). Known findings: SCORERANGEBENEFIT/COST have no MPilot counterpart (known_findings.json).',
+    ref='DESIGN.md §4 C16')
 NOT_YET = {}
 ALL = ['C%02d' % i for i in range(1, 21)]
 
